@@ -998,21 +998,49 @@ def _r_chart_rest(m, rep, R, ch, cell, summary=None):
             c = strip(n.kids[0])
             if c.name == 'push_back':
                 regs[canon(term(c.kids[0], env))] = canon(term(n.kids[1], env))
-        want = {canon(IDX(M(('this',), 'ending_cells_'), ADD(V(pr[0]), V(pr[1]), LIT(1)))): canon(('addr', cv)),
-                canon(IDX(M(('this',), 'starting_cells_'), V(pr[0]))): canon(('addr', cv))}
+        start_at, end_at = _registry_forms(ch)
+        want = {canon(end_at(ADD(V(pr[0]), V(pr[1]), LIT(1)))): canon(('addr', cv)),
+                canon(start_at(V(pr[0]))): canon(('addr', cv))}
         rep.check(regs == want, R, _w(op.line, 'chart::operator()'), 'chart:register',
                   'a cell (row=start, column=len-1) is listed under starting[start] and ending[start+len]',
                   'cell registration is %s' % regs)
     _r_chart_tail(m, rep, R, ch, cell)
 
 
-def _r_chart_tail(m, rep, R, ch, cell):
-    for name, fld in (('cells_starting_at', 'starting_cells_'), ('cells_ending_at', 'ending_cells_')):
+def _registry_forms(ch):
+    """where the chart lists the cells that start / end at a position, read off its two accessors: an array member indexed
+    by the position (`starting_cells_[i]`), or a field of the i-th element of one array of records (`boundaries_[i].starting`).
+    -> (start_at, end_at): functions from an index term to the place term.  The two places must be different ones."""
+    forms = []
+    for name in ('cells_starting_at', 'cells_ending_at'):
         fn = cxx.method(ch, name)
         p = Paths(fn).paths
         a = cxx.params_of(fn)[0].name
-        ok = len(p) == 1 and p[0][2] is not None and canon(p[0][2]) == canon(IDX(M(('this',), fld), V(a)))
-        rep.check(ok, R, _w(fn.line, 'chart::' + name), 'chart:' + name, '%s(i) returns %s[i]' % (name, fld),
+        r = p[0][2] if len(p) == 1 else None
+        kind = None
+        if r is not None and r[0] == 'idx' and r[1][0] == 'mem' and r[1][1] == ('this',) and tuple(r[2]) == (V(a),):
+            kind = ('array', r[1][2], None)
+        elif r is not None and r[0] == 'mem' and r[1][0] == 'idx' and r[1][1][0] == 'mem' and r[1][1][1] == ('this',) and tuple(r[1][2]) == (V(a),):
+            kind = ('field', r[1][1][2], r[2])
+        forms.append(kind)
+    if forms[0] is None or forms[1] is None or forms[0] == forms[1]:
+        return (lambda i: IDX(M(('this',), 'starting_cells_'), i)), (lambda i: IDX(M(('this',), 'ending_cells_'), i))
+
+    def mk(k):
+        if k[0] == 'array':
+            return lambda i: IDX(M(('this',), k[1]), i)
+        return lambda i: M(IDX(M(('this',), k[1]), i), k[2])
+    return mk(forms[0]), mk(forms[1])
+
+
+def _r_chart_tail(m, rep, R, ch, cell):
+    start_at, end_at = _registry_forms(ch)
+    for name, form in (('cells_starting_at', start_at), ('cells_ending_at', end_at)):
+        fn = cxx.method(ch, name)
+        p = Paths(fn).paths
+        a = cxx.params_of(fn)[0].name
+        ok = len(p) == 1 and p[0][2] is not None and canon(p[0][2]) == canon(form(V(a)))
+        rep.check(ok, R, _w(fn.line, 'chart::' + name), 'chart:' + name, '%s(i) returns %s' % (name, canon(form(V('i')))),
                   '%s(i) returns %s' % (name, canon(p[0][2]) if p and p[0][2] else '?'))
     if getattr(m, 'goal_is_list', False):
         return      # finished parses are kept in a standard container: its size() / empty() are the library's
